@@ -11,8 +11,9 @@ from sv import registry as R
 from sv.props import c01
 
 PROPERTY = "C02"
-GEN = ["Contingency"]
-PROPS = ["ScoresVerif/Props/C02.lean"]
+GEN = ["Contingency", "CrpsEns", "Point"]
+PROPS = ["ScoresVerif/Props/C02.lean", "ScoresVerif/Props/C02Ens.lean", "ScoresVerif/Props/C02Counts.lean",
+         "ScoresVerif/Props/C02Point.lean", "ScoresVerif/Props/C02Cdf.lean"]
 DRIVER_DEPS = ["ScoresVerif.Driver.C01", "ScoresVerif.Driver.C13Spec", "ScoresVerif.Driver.C06", "ScoresVerif.Driver.C12"]
 LEVEL = "proof"
 TRUSTED = ["xarray mean/sum(skipna=True) and count as modelled by SV.nanmean / nansum / count (tied by the correspondence)"]
